@@ -237,6 +237,60 @@ func check(c Case) (o ev.Outcome) {
 			}
 		}
 	})
+	// lookups from the older revision that is loaded beside the set: its text binds the prefixes of the module's
+	// imports to other modules than the module's own text does, and what a prefix denotes is a matter of the text
+	// that holds the start node
+	if ot := c.Set.OlderText(); ot != nil && len(o.Violations) == 0 {
+		ev.Guard(&o, "lookups-from-older-revision", func() {
+			om := obs.MS.Modules[c.Set.Older+"@2019-05-05"]
+			if om == nil {
+				return
+			}
+			oroot := yang.ToEntry(om)
+			starts := []*yang.Entry{oroot}
+			if e := oroot.Dir["older-only"]; e != nil {
+				starts = append(starts, e)
+			}
+			for _, im := range c.Set.OlderImports() {
+				tm := obs.MS.Modules[im.Module]
+				tt := trees[im.Module]
+				if tm == nil || tt == nil || tt.Root == nil {
+					continue
+				}
+				troot := yang.ToEntry(tm)
+				names := make([]string, 0, len(tt.Root.Children))
+				for k := range tt.Root.Children {
+					names = append(names, k)
+				}
+				sort.Strings(names)
+				for _, k := range names {
+					want := troot.Dir[k]
+					if want == nil {
+						continue
+					}
+					for _, st := range starts {
+						lookups++
+						classes["from-older-revision"] = true
+						if got := st.Find("/" + im.Prefix + ":" + k); got != want {
+							fail("absolute-lookup", "absolute/from-older-revision/other-module", "from %s@2019-05-05 %s (its text imports %s under %s): Find(%q) returned %s, the node is %s", c.Set.Older, st.Path(), im.Module, im.Prefix, "/"+im.Prefix+":"+k, desc(got), desc(want))
+							return
+						}
+					}
+				}
+			}
+			// and its own nodes under its own prefix
+			mm := c.Set.Find(c.Set.Older)
+			if want := oroot.Dir["older-only"]; want != nil && mm != nil {
+				for _, st := range starts {
+					lookups++
+					if got := st.Find("/" + mm.Prefix + ":older-only"); got != want {
+						fail("absolute-lookup", "absolute/from-older-revision/same-module", "from %s@2019-05-05 %s: Find(%q) returned %s, the node is %s", c.Set.Older, st.Path(), "/"+mm.Prefix+":older-only", desc(got), desc(want))
+						return
+					}
+				}
+			}
+		})
+	}
 	for cl := range classes {
 		o.Class("target/" + cl)
 	}
